@@ -334,7 +334,7 @@ func runC18(r *Run) {
 			settings = ""
 		}
 		script := "#!/bin/bash\nif [[ \"${1:-}\" == \"--config\" ]]; then\n  echo '{\"configVersion\": \"v1\", \"onStartup\": 1" + settings + "}'\n  exit 0\nfi\ndate +%s%N >> " + logf + "\n"
-		_ = os.WriteFile(filepath.Join(hooks, "hook.sh"), []byte(script), 0o755)
+		_ = writeScript(filepath.Join(hooks, "hook.sh"), []byte(script), 0o755)
 		op := shell_operator.NewShellOperator(context.Background(), shell_operator.WithLogger(log.NewNop()))
 		op.MetricStorage = metricstorage.NewMetricStorage(context.Background(), "", true, log.NewNop())
 		op.HookMetricStorage = metricstorage.NewMetricStorage(context.Background(), "", true, log.NewNop())
@@ -646,7 +646,7 @@ func c18RunQueues(r *Run, c *Case, scn c18Scn) {
 			"ts=$(date +%s%N)\nctx=$(<\"$BINDING_CONTEXT_PATH\")\nre='\"binding\": *\"([^\"]+)\"'\nname=none\n[[ $ctx =~ $re ]] && name=${BASH_REMATCH[1]}\n" +
 			"echo \"$ts $name\" >> " + logOf(hi) + "\nlim=0\ncase \"$name\" in\n" + cases.String() + "  *) ;;\nesac\n" +
 			"n=$(grep -c \" $name\\$\" " + logOf(hi) + ")\nif (( n <= lim )); then echo 'not yet' >&2; exit 1; fi\nexit 0\n"
-		_ = os.WriteFile(filepath.Join(hooksDir, h.name), []byte(script), 0o755)
+		_ = writeScript(filepath.Join(hooksDir, h.name), []byte(script), 0o755)
 	}
 	ctx, cancel := context.WithCancel(context.Background())
 	defer cancel()
